@@ -104,12 +104,12 @@ class Modules(object):
         importlib.invalidate_caches()
         self.loaded = []
 
-    def get(self, chain, nest, tail, fresh=False):
+    def get(self, chain, nest, tail, fresh=False, modid=None):
         key = json.dumps([chain, nest, tail])
         if not fresh and key in self.cache:
             return self.cache[key]
         self.n += 1
-        r = R.render(chain, nest, tail, modid=self.n)
+        r = R.render(chain, nest, tail, modid=self.n if modid is None else modid)
         uname = 'c12u_%d' % self.n
         aname = 'c12allow.m%d' % self.n
         upath = os.path.join(self.root, uname + '.py')
@@ -189,6 +189,7 @@ class Runner(object):
         self.n_scans = 0
         self.n_maps = 0
         self.n_entries = 0
+        self.gen_dir = os.path.join(mods.root, 'gen')
 
     # ---- 3. the scan transcription against the real function -------------------------------------
     def check_scan(self, tb, amap, res, origin):
@@ -255,6 +256,10 @@ class Runner(object):
                 w = dict(wit, entry=[loc.filename, loc.lineno, org.loc.filename, org.loc.lineno, org.function_name])
                 # S1: the key is a line of the generated module of this conversion
                 if loc.filename != gpath or not (1 <= loc.lineno <= len(gsrc)):
+                    if loc.filename in (mod['upath'], mod['apath']) or os.path.dirname(loc.filename) in (self.mods.root, os.path.join(self.mods.root, 'c12allow')):
+                        self.rep.violation('c12:source-map:entry-keyed-by-user-line',
+                                           'a source map entry is keyed by a line of a user file instead of a generated line', w)
+                        continue
                     self.rep.violation('c12:source-map:key-not-a-generated-line',
                                        'a source map entry is keyed by a location that is not a line of the generated module', w)
                     continue
@@ -293,10 +298,19 @@ class Runner(object):
                                        dict(wit, line=ln))
 
     # ---- 1 + 2. one scenario -----------------------------------------------------------------------
-    def scenario(self, rec):
+    def scenario(self, rec, twin=False):
         rep = self.rep
         chain, nest, tail, k = rec['chain'], rec['nest'], rec['tail'], rec['k']
-        mod = self.mods.get(chain, nest, tail, fresh=rec['prior'])
+        if twin:
+            # history: a file with the same text was loaded and converted before (e.g. one module under two paths)
+            first = self.mods.get(chain, nest, tail, fresh=True, modid=0)
+            try:
+                self.malt.convert(recursive=True)(first['fobj'][0])(R.inputs(k, tail), 1)
+            except Exception:
+                pass
+            mod = self.mods.get(chain, nest, tail, fresh=True, modid=0)
+        else:
+            mod = self.mods.get(chain, nest, tail, fresh=rec['prior'])
         files = mod['files']
         f1 = mod['fobj'][0]
         # renderer vs. specification layout
@@ -325,7 +339,7 @@ class Runner(object):
         if rec['prior']:
             self.malt.to_graph(_unwrap(mod['fobj'][-1]))
         # --- 2. the converted run
-        shape = _shape(rec)
+        shape = _shape(rec) + (':twin-file' if twin else '')
         try:
             self.malt.convert(recursive=True)(f1)(R.inputs(k, tail), 1)
             rep.violation('c12:no-exception:' + shape, 'converted function did not raise', _witness(rec, mod))
@@ -368,7 +382,11 @@ class Runner(object):
             w = _witness(rec, mod, dict(observed_stack=[[os.path.basename(f.filename), f.lineno, f.function_name,
                                                          f.is_converted, f.is_allowlisted] for f in ts]))
             inner = spec_orig[-1]
-            if not got or got[0] != inner:
+            if twin:
+                rep.violation('c12:stack:twin-file',
+                              'a function whose text and position equal those of a function of another file converted earlier is '
+                              'reported at the other file: user frames of this file listed %s, expected %s' % (got, exp), w)
+            elif not got or got[0] != inner:
                 rep.violation('c12:stack:innermost:%s:%s' % (rec['kind'], shape),
                               'innermost user frame named is %s, the failing statement is %s' % (got[0] if got else None, inner), w)
             elif not _is_subseq(list(reversed(got)), spec_orig):
@@ -410,13 +428,14 @@ class Runner(object):
         while cl and cl[0] != 'G':
             cl.pop(0)
         spec_cl = ['G' if f['file'].startswith('G') else f['file'] for f in rec['full']]
-        if cl != spec_cl and not rec['prior']:
+        if cl != spec_cl and not rec['prior'] and not twin:
             self.shape_mismatch.append((cl, spec_cl, json.dumps([chain, nest, tail, k])))
         # --- 3. every scan of this scenario against the real function
         for sc in rec['scans']:
             self.check_scan(sc['tb'], sc['map'], sc['res'], dict(chain=chain, nest=nest, tail=tail, k=k, lvl=sc['lvl']))
         # --- 4. source maps of the converted functions of this module
-        self.check_source_map(rec, mod)
+        if not twin:
+            self.check_source_map(rec, mod)
         rep.validated()
         rep.sample(dict(chain=chain, nest=nest, tail=tail, k=k, kind=rec['kind'], observed_type=t1.__name__, user_frames=got))
 
@@ -486,6 +505,12 @@ def _run(rep, tier, only=None):
             for r in uniq:
                 run.scenario(r)
                 nsc += 1
+            if name == 'bfs-depth1':
+                tw = [r for r in uniq if r['k'] in (2, 7) and not r['prior']][:6]
+                for r in tw:
+                    run.scenario(r, twin=True)
+                    nsc += 1
+                rep.set('twin_file_scenarios', len(tw))
         if run.shape_mismatch:
             cl, spec_cl, key = run.shape_mismatch[0]
             raise common.MachineryError('model of the converted run traceback is wrong in %d scenario(s), e.g. %s:\n real %s\n spec %s' % (
